@@ -180,7 +180,9 @@ func monC13(rep Rep, v *View) (interesting bool) {
 		var names []string
 		after := map[string]bool{}
 		for _, r := range v.Rec.RevsAfter {
-			after[r.Name] = true
+			if r.Namespace == v.Set.Namespace {
+				after[r.Name] = true
+			}
 		}
 		for _, u := range unused {
 			if after[u.Name] {
